@@ -5,9 +5,19 @@ use once_cell::sync::OnceCell;
 pub fn init() {
     static INITED: OnceCell<()> = OnceCell::new();
     INITED.get_or_init(|| {
+        #[cfg(feature = "verif-hooks")]
+        crate::verif_hooks::probe("init:enter");
         PrefixOpManager::new().init();
+        #[cfg(feature = "verif-hooks")]
+        crate::verif_hooks::probe("init:stage1");
         InfixOpManager::new().init();
+        #[cfg(feature = "verif-hooks")]
+        crate::verif_hooks::probe("init:stage2");
         PostfixOpManager::new().init();
+        #[cfg(feature = "verif-hooks")]
+        crate::verif_hooks::probe("init:stage3");
         InnerFunctionManager::new().init();
+        #[cfg(feature = "verif-hooks")]
+        crate::verif_hooks::probe("init:stage4");
     });
 }
